@@ -41,3 +41,19 @@ m = {
 }
 json.dump(m, open(os.path.join(V, "MANIFEST.json"), "w"), indent=1)
 print("claimed:", [c["property_id"] for c in checks])
+
+# every theorem name cited in a claim text must exist as a Theorem/Lemma/Example in coq/Props (names with
+# braces/wild cards are families and are skipped)
+import re, glob
+have = set()
+for f in glob.glob(os.path.join(V, "coq", "Props", "*.v")) + glob.glob(os.path.join(V, "coq", "Obl", "*.v")) + glob.glob(os.path.join(V, "coq", "Proofs", "*.v")):
+    have.update(re.findall(r"^\s*(?:Theorem|Corollary|Lemma|Example|Definition)\s+([A-Za-z0-9_']+)", open(f).read(), flags=re.M))
+missing = []
+for c in checks:
+    txt = c["level_claimed"]["text"] + " " + c["level_note"]
+    for name in set(re.findall(r"\bC\d\d_[A-Za-z0-9_]*[A-Za-z0-9]\b(?![_{<*(/])", txt)):
+        if name not in have and not any(h.startswith(name + "_") or h.startswith(name) for h in have):
+            missing.append("%s: %s" % (c["property_id"], name))
+if missing:
+    print("CLAIMS CITE THEOREMS THAT DO NOT EXIST:", "; ".join(sorted(missing)))
+    raise SystemExit(1)
